@@ -1398,6 +1398,57 @@ pub fn build(full_name: &str, level: u8) -> Option<Scenario> {
                     c.beats = l as u8;
                 });
             }
+            if n.contains("-regain") {
+                // leader 1 had a read pending (its heartbeats were lost) when node 2 took over;
+                // node 1 then won leadership back and committed in its new term: the read
+                // bookkeeping of its first leadership must be gone
+                s.prefix = vec![
+                    Action::Timeout(1),
+                    Action::Settle,
+                    Action::ReadIndex(1),
+                    Action::Settle0(1),
+                    Action::DropAll,
+                    Action::Timeout(2),
+                    Action::Settle,
+                    Action::Timeout(1),
+                    Action::Settle,
+                ];
+                s.clients_at = vec![1, 2];
+                s.timeoutable = vec![2];
+                s.crashable = vec![];
+                s.fault_types = vec![raft::eraftpb::MessageType::MsgHeartbeatResponse as u8];
+                s.caps = caps(|c| {
+                    c.reads = 1 + (l as u8).min(1);
+                    c.beats = (l as u8).min(1);
+                    c.timeouts = (l as u8) / 2;
+                    c.drops = (l as u8).min(1);
+                });
+            }
+            if n.contains("-swap") {
+                // voters {1}, learner {2}; one auto-leave joint change swaps them: (2)&&(1).
+                // Node 1 applies lazily: it may still be in the joint configuration (unapplied
+                // leave-joint) while node 2 already is the only voter, elects itself and commits
+                s = Scenario { nodes: s.nodes[..2].to_vec(), voters: vec![1], learners: vec![2], ..s };
+                for (k, nd) in s.nodes.iter_mut().enumerate() {
+                    nd.apply_lag = k == 0;
+                }
+                s.cc_menu = vec![CcSpec::V2(0, vec![(0, 2), (1, 1)])];
+                s.prefix = vec![Action::Timeout(1), Action::Settle];
+                s.clients_at = vec![1];
+                s.timeoutable = vec![2];
+                // -crash: the old voter may crash while it is a voter of the outgoing half only
+                s.crashable = if n.contains("-crash") { vec![1] } else { vec![] };
+                s.fault_types = vec![];
+                s.caps = caps(|c| {
+                    c.reads = 1;
+                    c.ccs = 1;
+                    c.props = (l as u8).min(1);
+                    c.timeouts = 1;
+                    c.beats = (l as u8).min(1);
+                    c.crashes = if n.contains("-crash") { 1 } else { 0 };
+                    c.drops = if n.contains("-crash") { 1 } else { 0 };
+                });
+            }
             if n.contains("-rm1") {
                 // voters {1,2}; the leader 1 removed itself and keeps leading (raft-rs lets it);
                 // the only remaining voter 2 may elect itself and commit on its own
